@@ -44,7 +44,9 @@ def small_graphs():
                     edges[a].add(b)
             text = ""
             for a in names:
-                text += "procedure %s\n" % a + "".join("run %s\n" % b for b in sorted(edges[a])) + "end\n"
+                # the calls of one procedure stand on separate lines, or on one line joined with ` \ ` (the way hoisted calls are emitted), in both spellings of the keyword
+                calls = ["%s %s" % (("run", "RUN")[(mask >> 3 ^ k) & 1], b) for k, b in enumerate(sorted(edges[a]))]
+                text += "procedure %s\n" % a + ("".join(c + "\n" for c in calls) if mask % 3 else " \\ ".join(calls) + "\n") + "end\n"
             bank = ProcedureBank()
             bank.add_from_str(text)
             out = bank.get_procedure_and_dependencies("pa")
@@ -186,6 +188,18 @@ def requested_size_reaches_bundle():
             pre = sum(len(re.findall(r"(?i):\s*STRING\[%d\]" % size, bank_raw._name_to_procedure[h])) for h in heads if h in bank_raw._name_to_procedure) if size != 32 else 0
             res.append(ob("bundle/requested size %d reaches every placeholder" % size, ntags > 0 and got - pre == ntags, "%d placeholders sized [%d]" % (ntags, size),
                           "%d sized declarations (library text itself has %d)" % (got, pre)))
+        # ... and for every procedure of the real library, however its placeholder lines are spelled
+        for size in (1, 80):
+            bank = ProcedureBank(default_str_storage=size)
+            bank.add_from_resource("ecb.b09")
+            left = []
+            for h in sorted(bank._name_to_procedure):
+                text = bank.get_procedure_and_dependencies(h)
+                for line in text.split("\n"):
+                    outside = re.sub(r'"[^"]*"', '""', line)
+                    if "<<>>" in outside:
+                        left.append("%s: %s" % (h, line.strip()[:60]))
+            res.append(ob("bundle/no placeholder is left in any library procedure, size %d" % size, not left and len(bank._name_to_procedure) > 20, "every STRING<<>> replaced", left[:4] or "%d procedures" % len(bank._name_to_procedure)))
         return res
     return guarded("bundle/requested size", run)
 
@@ -205,6 +219,28 @@ def bundle_order_through_convert():
             res.append(ob("bundle/order by name through convert()/%s" % name, heads == want and mixed, "sorted by name, root last (bundle mixes both header spellings)", heads if heads != want else "sorted" if mixed else "bundle does not mix header spellings (vacuous)"))
         return res
     return guarded("bundle/order", run)
+
+
+def bundle_closed_through_convert():
+    """through convert(): whatever the program calls - upper- or lower-case RUN, one or several calls on a line, with or without the standard
+    prologue - the bundle holds exactly the closure of the calls that stand in the program's own procedure"""
+    def run():
+        res = []
+        sig = ecbsig.parse()
+        edges = {p: {c for c, _ in v["runs"]} for p, v in sig.items()}
+        progs = {"lower-case calls only": '10 A$=STRING$(3,"x"):LOCATE 1,2\n', "PLAY alone": '10 PLAY "C"\n', "two calls on one line": "10 B$=HEX$(X)+STR$(X)\n",
+                 "three calls on one line": '10 PRINT HEX$(1);STR$(2);INSTR(1,"a","a")\n', "upper-case calls only": "10 CLS:SOUND 1,1\n", "no call": "10 A=1\n",
+                 "call in a nested IF": '10 IF A=1 THEN IF B=2 THEN PLAY "C" ELSE HSCREEN 2\n'}
+        for name, src in progs.items():
+            for prefix in (False, True):
+                out = convert(src, output_dependencies=True, procname="zz_main", add_standard_prefix=prefix)
+                heads = re.findall(r"(?mi)^procedure ([\w-]+)", out)
+                own = out[out.lower().rfind("procedure zz_main"):]
+                direct = {c for c in re.findall(r"(?i)\brun\s+(\w+)", re.sub(r'"[^"]*"', '""', own)) if c in sig}
+                want = sorted(set().union(set(), *[reach(edges, d) for d in direct]) & set(sig)) + ["zz_main"]
+                res.append(ob("bundle/closure of the program's calls through convert()/%s,prefix=%d" % (name, prefix), heads == want and (bool(direct) or name == "no call" and not prefix or prefix), want, heads, src))
+        return res
+    return guarded("bundle/closed", run)
 
 
 def line_splitting():
@@ -243,4 +279,4 @@ def shared_state():
 
 
 def obligations():
-    return small_graphs() + real_library() + regex_contracts() + user_text() + requested_size_reaches_bundle() + bundle_order_through_convert() + line_splitting() + history() + shared_state()
+    return small_graphs() + real_library() + regex_contracts() + user_text() + requested_size_reaches_bundle() + bundle_order_through_convert() + bundle_closed_through_convert() + line_splitting() + history() + shared_state()
